@@ -62,7 +62,9 @@ def run(ctx, rep):
     if I.tops or not isinstance(r, StructV): rep.undecided('parse', 'aml::Path::new', I.tops, b['sp']); return
     name = ('a', 'name')
     rt = r.fields['root']
-    rep.ob('parse-root', 'aml::Path::new', rt == ('call', 'starts_with', name, C(0x5c)), 'rootedness is %s, specified starts_with(name, \'\\\\\')' % show(rt), sp=b['sp'], detail={'root': show(rt)})
+    sw_ = ('call', 'starts_with', name, C(0x5c))
+    rt_ok = rt == sw_ or (is_term(rt) and _is_indicator(rt, sw_))
+    rep.ob('parse-root', 'aml::Path::new', rt_ok, 'rootedness is %s, specified starts_with(name, \'\\\\\')' % show(rt), sp=b['sp'], detail={'root': show(rt)})
     parts = r.fields['name_parts']
     ok = isinstance(parts, SeqV) and len(parts.segs) == 1 and parts.segs[0][0] == 'rep'
     src = None
@@ -71,7 +73,10 @@ def run(ctx, rep):
         var = rp[2]; src = rp[1]
         body_ = rp[3]
         # one element pushed per split part, bytes of the part verbatim
-        ok = len(body_) == 1 and body_[0][0] == 'elem' and isinstance(body_[0][1], SeqV) and body_[0][1].segs == [('raw', ('a', var), ('len', ('a', var)))]
+        # (the stored length may be written as the constant the refusal pins it to: compared under the refusals met)
+        gfacts = tuple(x['cond'] for x in I.guards if x['kind'] in ('assert', 'copy_from_slice-len', 'unwrap', 'expect'))
+        es_ = body_[0][1].segs if len(body_) == 1 and body_[0][0] == 'elem' and isinstance(body_[0][1], SeqV) else None
+        ok = es_ is not None and len(es_) == 1 and es_[0][0] == 'raw' and es_[0][1] == ('a', var) and equal(es_[0][2], ('len', ('a', var)), gfacts)[0]
         # the parts are split(name, '.', start) with start = 1 exactly when the string is rooted
         sp_ = src[1] if src[0] == 'len' else None
         ok = ok and sp_ is not None and sp_[0] == 'call' and sp_[1] == 'split' and sp_[2] == name and sp_[3] == C(0x2e) \
@@ -80,7 +85,7 @@ def run(ctx, rep):
            detail={'name_parts': repr(parts)[:300]})
     # 4. the 4-byte assertion guards every push
     # (an explicit assertion, or the length check inside copy_from_slice: either refuses the segment)
-    g = [x for x in I.guards if x['kind'] in ('assert', 'copy_from_slice-len')]
+    g = [x for x in I.guards if x['kind'] in ('assert', 'copy_from_slice-len', 'unwrap', 'expect')]
     four = lambda x: equal(ite(x['cond'], ONE, ZERO), ite(cmp('eq', ('len', ('a', var)), C(4)), ONE, ZERO))[0]
     okg = ok and any(four(x) for x in g)
     rep.ob('refuse-malformed', 'aml::Path::new', okg, 'no assertion that every segment is exactly 4 bytes long before it is stored', sp=b['sp'], detail={'guards': [show(x['cond']) for x in I.guards]})
